@@ -202,7 +202,7 @@ def check(ctx):
     share(ctx, 'C09', 'R5/C09.', ['R1.', 'R2.'])
     # every coordinate of the hypercube must be sampled: one fresh canonical number per dimension
     share(ctx, 'C10', 'R7/C10.', ['R1.draws_per_call'])
-    share(ctx, 'C17', 'R7/C17.', ['R4.unit_interval'])
+    share(ctx, 'C17', 'R7/C17.', ['R4.unit_interval', 'R1.same_map_object', 'R1.same_objects'])
     # MPI: the calls of an iteration are split over the ranks of the communicator that is reduced over
     share(ctx, 'C04', 'R6/C04.', ['R8.'])
 
